@@ -531,6 +531,8 @@ def main():
     import astq
     env = {n: vals[0] for k, n, vals in rows if k.startswith("enum:") or k == "def"}
     changed += astq.emit_all(REPO, GEN, CFLAGS, write_if_changed, BUILD, env)
+    import sites
+    changed += sites.emit(REPO, GEN, CFLAGS, write_if_changed, BUILD)
     info = {"changed": changed, "dropped_probe_lines": dropped,
             "n_enumerators": sum(len(n) for _, n in enums), "n_defines": len(defines), "n_records": len(recs)}
     with open(os.path.join(work, "translate.json"), "w") as f:
